@@ -1,7 +1,7 @@
 (* Correspondence for C02: Plan.Vars.variables_list / forwarded vs planner.getVariablesList (verif export) and the
    variables that actually accompanied the step's sub-request. *)
 From Coq Require Import List String Bool Arith.
-From Pebbles Require Import Base.Json Plan.Vars Plan.Header Merge.Model Plan.Steps Corr.C07.
+From Pebbles Require Import Base.Json Plan.Vars Plan.Header Merge.Model Plan.Steps Plan.StepsProofs Corr.C07.
 Import ListNotations.
 Open Scope string_scope.
 Open Scope list_scope.
@@ -53,7 +53,7 @@ Fixpoint psel_eqb (a b : psel) {struct a} : bool :=
                                      | [], [] => true
                                      | x :: r, y :: r' => psel_eqb x y && all r r'
                                      | _, _ => false end) sub sub'
-  | PInline c sub, PInline c' sub' =>
+  | PInline c sub, PInline c' sub' | PNode c sub, PNode c' sub' =>
       (c =? c') &&
       (fix all (l l' : list psel) := match l, l' with
                                      | [], [] => true
@@ -75,9 +75,29 @@ Definition steps_match (m o : list Steps.step) : bool :=
   Nat.eqb (List.length m) (List.length o) && forallb (fun x => existsb (step_eqb x) o) m &&
   forallb (fun y => existsb (fun x => step_eqb x y) m) o.
 
+(* the hypotheses of Plan.StepsProofs.plan_steps_owned, evaluated on the real table, schema facts and sanitized selection *)
+Definition route_eqb (a b : route) : bool :=
+  match a, b with RUrl u, RUrl v => u =? v | RNoType, RNoType | RNoField, RNoField => true | _, _ => false end.
+Definition in_domain (c : plancase) : bool :=
+  forallb (fun e => forallb (fun fu => negb (snd fu =? internal_service) && negb (fst fu =? "id")) (tp_fields (snd e))) (pTm c) &&
+  forallb (fun i => match tm_is_node (pTm c) i with None => true | Some _ => false end) (ps_interfaces (pPs c)) &&
+  forallb (fun e => forallb (fun d => negb (is_root d)) (snd e)) (ps_possible (pPs c)) &&
+  is_root (pParent c) && negb (mem (pParent c) (ps_interfaces (pPs c))) &&
+  forallb (frag_ok (pTm c)) (pInput c).
+(* ... and its conclusion, evaluated on the steps the real planner made *)
+Definition owned_selsb (tm : tmap) (loc parent : string) (ss : list psel) : bool :=
+  forallb (fun pn => route_eqb (get_url tm (fst pn) (snd pn) loc) (RUrl loc)) (sites_of tm loc parent ss).
+Fixpoint owned_stepb (tm : tmap) (s : Steps.step) {struct s} : bool :=
+  match s with
+  | mkStep u p _ ss th =>
+      owned_selsb tm u p ss && (fix all (l : list Steps.step) := match l with [] => true | x :: r => owned_stepb tm x && all r end) th
+  end.
+
 Definition plan_agrees (c : plancase) : bool :=
   match plan_root 64 (pTm c) (pPs c) (pUrls c) (pParent c) (pInput c), pObs c with
-  | Ok m, Some o => steps_match m o
+  | Ok m, Some o =>
+      steps_match m o &&
+      (if in_domain c then forallb (fun st => (s_url st =? internal_service) || owned_stepb (pTm c) st) o else true)
   | Err, None => true
   | OutOfModel, _ => true
   | _, _ => false
